@@ -356,10 +356,16 @@ def history(case, ctx, rng, tmp):
             # documented argument order (period, folder_path, file_name, save_initial, metadata, metadata_only): keyword and
             # positional call forms mean the same
             ms = ModelSaver(1, folder, "ep_{}.pt", save_initial=True, metadata=md) if step % 3 else ModelSaver(1, folder, "ep_{}.pt", True, md)
+            # the caller goes on filling its dict after handing it to the saver (an empty dict completed before fit, a value
+            # updated by another callback): what is stored alongside is the dict as it is WHEN a file is written
+            md["filled_in_later"] = int(step)
+            md_before = copy.deepcopy(md)
             try:
                 ctx.lib("ModelSaver.on_train_start", ms.on_train_start, st, tags=tags)
                 ctx.count("modelsaver_saves")
                 check_file(ctx, os.path.join(folder, "ep_initial.pt"), snap(m), md_before, tags, wit)
+                md["n"] = md["n"] + 1
+                md_before = copy.deepcopy(md)
                 for ep in (1, 2, 3):
                     ctx.lib("ModelSaver.on_epoch_end", ms.on_epoch_end, st, ep, tags=dict(tags, epoch=ep))
                     ctx.count("modelsaver_saves")
